@@ -315,6 +315,14 @@ func (e *Engine) intrinsicFor(fn *ssa.Function) (string, bool) {
 				}
 			}
 		}
+		if res == "" {
+			for _, p := range e.cfg.StubError {
+				if strings.HasPrefix(name, p) {
+					res = "symerr:" + name
+					break
+				}
+			}
+		}
 		if res == "" && strings.Contains(name, "/vapi.") && vapiPrims[fn.Name()] {
 			res = "vapi:" + fn.Name()
 		}
